@@ -92,6 +92,11 @@ func loadCtx(repo, tier string, extraEnv []string, buildFlags []string) (*Ctx, e
 	if c.Root == nil || c.W == nil || c.Cmd == nil {
 		return nil, fmt.Errorf("expected packages %s, %s, %s; loaded %d packages", pathRoot, pathW, pathCmd, len(pkgs))
 	}
+	notes, err := canonicalise(map[string]*packages.Package{pathRoot: c.Root, pathW: c.W, pathCmd: c.Cmd})
+	if err != nil {
+		return nil, err
+	}
+	c.Renamed = notes
 	for _, p := range []*packages.Package{c.Root, c.W, c.Cmd} {
 		for _, f := range p.Syntax {
 			for _, d := range f.Decls {
@@ -113,7 +118,6 @@ func loadCtx(repo, tier string, extraEnv []string, buildFlags []string) (*Ctx, e
 		}
 	}
 	sort.Slice(c.all, func(i, j int) bool { return c.all[i].Key() < c.all[j].Key() })
-	c.Renamed = c.resolveRenames()
 	return c, nil
 }
 
